@@ -96,10 +96,90 @@ func (l *c08Ledger) openOps() []string {
 	return out
 }
 
+// c08EventsPollers: consumers that poll Events() (instead of sitting in the receive) while sources report as fast as
+// they can. The monitor must stay responsive and shut down cleanly.
+func c08EventsPollers(w *fw.Worker, i int, r *fw.Rand) {
+	desc := map[string]any{"mode": "events-pollers-under-report-bursts"}
+	w.BeginDesc(i, "events-pollers")
+	e, err := conc.Start(context.Background(), r.U64(), conc.Opts{NSrc: 2}, nil)
+	if err != nil {
+		w.Violation(i, "config-failed", err.Error(), desc)
+		return
+	}
+	ctx := e.S.Ctx
+	stop := make(chan struct{})
+	var pwg sync.WaitGroup
+	var received atomic.Int64
+	for p := 0; p < 2; p++ {
+		rr := r.Fork()
+		pwg.Add(1)
+		go func(rr *fw.Rand) {
+			defer pwg.Done()
+			for k := 0; ; k++ {
+				select {
+				case <-stop:
+					return
+				default:
+				}
+				select {
+				case <-e.D.Events():
+					received.Add(1)
+				default:
+				}
+				if k%(3+rr.Intn(5)) == 0 {
+					runtime.Gosched()
+				}
+			}
+		}(rr)
+	}
+	per := w.Pick(2500, 40000)
+	var rwg sync.WaitGroup
+	var stuck atomic.Bool
+	for s := 0; s < 2; s++ {
+		rwg.Add(1)
+		go func(s int) {
+			defer rwg.Done()
+			for k := 0; k < per && !stuck.Load(); k++ {
+				l := e.NewLayer()
+				l.Set[k%4], l.Set[2] = true, true
+				rctx, cancel := context.WithTimeout(ctx, 5*time.Second)
+				rerr := e.Srcs[s].Report(rctx, l, true)
+				cancel()
+				if rerr != nil {
+					stuck.Store(true)
+				}
+			}
+		}(s)
+	}
+	rwg.Wait()
+	close(stop)
+	pwg.Wait()
+	w.Count("reports_under_events_pollers", int64(2*per))
+	w.Count("events_values_polled", received.Load())
+	if stuck.Load() {
+		// a valid blocking report did not complete within 5s: where is the monitor?
+		stuckVerdict(w, i, "valid blocking report while Events() is being polled", desc)
+		e.S.Cancel()
+		return
+	}
+	e.S.Cancel()
+	select {
+	case <-dials.VerifMonitorDone(e.D):
+	case <-time.After(10 * time.Second):
+		stuckVerdict(w, i, "monitor exit after cancelling the Config context (Events() pollers)", desc)
+		return
+	}
+	if c08LeakCheck(w, i, desc) {
+		w.Distinct(fmt.Sprintf("events-pollers|%d", received.Load()/1000))
+	}
+}
+
 func runC08(w *fw.Worker) {
 	w.Cases(func(i int, r *fw.Rand) {
 		g := i*w.Shards + w.Shard
 		switch {
+		case g%40 == 17:
+			c08EventsPollers(w, i, r)
 		case g%10 == 9:
 			c08BlockedCallback(w, i, r)
 		case g%10 == 8:
